@@ -810,14 +810,17 @@ class SgzReader(object):
             if not 0 <= index < self.tracecount:
                 raise IndexError(self.range_error.format(index, 0, self.tracecount - 1))
             min_trace = self.blockshape[1] * (index // self.blockshape[1])
+            min_z = self.blockshape[2] * (min_sample_id // self.blockshape[2])
+            max_z = self.blockshape[2] * ((max_sample_id + self.blockshape[2] - 1) // self.blockshape[2])
 
-            if self.blockshape[1] == 4:
+            if self.blockshape[1] == 4 and min_z == 0 and max_z == self.shape_pad[2]:
                 chunk = self.loader.read_and_decompress_trace_range(min_trace, min_trace+self.blockshape[1])
             else:
+                # Only fetch the blocks which the requested sample window intersects
                 chunk = self.read_subplane(min_trace, min_trace+self.blockshape[1],
-                                           0, self.n_samples, access_padding=True)
+                                           min_z, max_z, access_padding=True)
 
-            trace = chunk[index % self.blockshape[1], min_sample_id:max_sample_id]
+            trace = chunk[index % self.blockshape[1], min_sample_id-min_z:max_sample_id-min_z]
             return trace
 
         else:
